@@ -90,9 +90,9 @@ var ipPool = []string{
 	"8.8.8.8", "1.1.1.1", "93.184.216.34", "10.0.0.7", "10.1.2.3", "172.16.5.4", "192.168.1.9", "203.0.113.5", // unicast
 	"127.0.0.1", "127.1.2.3", // loopback
 	"224.0.0.1", "239.255.255.250", // multicast
-	"169.254.1.1",     // link-local
-	"0.0.0.0",         // unspecified
-	"255.255.255.255", // broadcast
+	"169.254.1.1",                                                                                                      // link-local
+	"0.0.0.0",                                                                                                          // unspecified
+	"255.255.255.255",                                                                                                  // broadcast
 	"::1", "[::1]", "fe80::1", "example.com", "1.2.3", "1.2.3.4.5", "256.1.1.1", "01.2.3.4", "1.2.3.-4", "１.2.3.4", "", // not IPv4
 }
 
